@@ -280,6 +280,8 @@ var endlessRC = []Prog{
 	{"endless-loop", `for { a += 1 }`, false},
 	{"endless-tail-recursion", `f := func(n) { return f(n + 1) }; f(a)`, false},
 	{"endless-for-in", `x := [1]; for v in x { x = append(x, v) }`, false},
+	{"endless-empty-loop", `for {}`, false},
+	{"endless-continue-loop", `f := func() { for { continue } }; f()`, false},
 	{"endless-tail-recursion-discarded", `f := func(n) { f(n + 1) }; f(a)`, false},
 	{"endless-tail-recursion-builtins", `f := func(n, acc) { return f(n + len(acc), [n]) }; f(a, [])`, false},
 }
